@@ -11,7 +11,8 @@ fuzz_target!(|data: &[u8]| {
     let mut u = Unstructured::new(data);
     let kind = pick(&mut u, &TreeKind::ALL);
     let ty = pick(&mut u, &ElemTy::ALL);
-    let how = pick(&mut u, &[How::New, How::FromVec, How::Collect, How::Default]);
+    let lm: u8 = (data.len() as u8).wrapping_mul(29);
+    let how = pick(&mut u, &[How::New, How::FromVec, How::Collect, How::Default, How::CollectLoose(lm), How::CollectLoose(lm.wrapping_add(77))]);
     let tie_seed: u64 = u.arbitrary().unwrap_or(0);
     let plan_seed: u64 = u.arbitrary().unwrap_or(0);
     // alphabet: up to 16 symbols, each with a generated bit length
